@@ -35,7 +35,9 @@ def demo(src, extra='', b='_b'):
 base_tests, _ = build_and_test('base')
 print('baseline tests:', base_tests)
 for n in nums:
-    src = f'/tmp/mut/{prop}/out/{n}'
+    # '<n>' = first round (/tmp/mut/<P>/out/<n>); 'r2:<n>' = second round (/tmp/mut/<P>/out2/<n>, stored as <P>-r2-<n>)
+    src = f'/tmp/mut/{prop}/out2/{n[3:]}' if n.startswith('r2:') else f'/tmp/mut/{prop}/out/{n}'
+    n = n.replace(':', '-')
     res = {'property': prop, 'n': n}
     d0 = demo(f'{src}/demo.c')
     rc, out = sh(f'git apply {src}/patch.diff', cwd=wt)
